@@ -559,8 +559,12 @@ func runSession(c *harness.Ctx) harness.Result {
 		if r.Intn(2) == 0 {
 			ex = excursions[r.Intn(len(excursions))]
 		}
-		if ex[0] == "granularity=lines" && gran != "" {
-			ex[1] = gran
+		if ex[0] == "granularity=lines" {
+			if gran == "" {
+				ex = excursions[1] // the session's granularity is "not set": nothing to put it back to
+			} else {
+				ex[1] = gran
+			}
 		}
 		lines = append(lines, ex[0], []string{"top", "tree", "dot", "traces", "list ."}[r.Intn(5)], ex[1])
 	}
@@ -570,8 +574,12 @@ func runSession(c *harness.Ctx) harness.Result {
 	for k := 0; k < 3; k++ {
 		if r.Intn(2) == 0 {
 			ex := excursions[r.Intn(len(excursions))]
-			if ex[0] == "granularity=lines" && gran != "" {
-				ex[1] = gran
+			if ex[0] == "granularity=lines" {
+				if gran == "" {
+					ex = excursions[1]
+				} else {
+					ex[1] = gran
+				}
 			}
 			lines = append(lines, ex[0], []string{"top", "tree", "dot", "traces", "list ."}[r.Intn(5)], ex[1])
 		}
